@@ -24,11 +24,49 @@ impl ModuleAnalyzer for Provided {
   }
 }
 
-fn parse_with(referrer: &str, kind: GraphKind, info: ModuleInfo) -> Option<JsModule> {
-  parse_with_headers(referrer, kind, info, None)
+/// A Resolver for whole-declaration cases: refuses or maps some texts, has default JSX import
+/// sources and a jsx module name of its own, and answers resolve_types for the module.
+#[derive(Debug, Default)]
+struct DeclResolver {
+  map: HashMap<String, Option<String>>,
+  jsx: Option<String>,
+  jsx_types: Option<String>,
+  jsx_module: &'static str,
+  /// None = Ok(None); Some(Ok(url)) = Ok(Some(url)); Some(Err(())) = Err
+  types: Option<Result<String, ()>>,
 }
 
-fn parse_with_headers(referrer: &str, kind: GraphKind, info: ModuleInfo, headers: Option<HashMap<String, String>>) -> Option<JsModule> {
+impl deno_graph::source::Resolver for DeclResolver {
+  fn default_jsx_import_source(&self, _referrer: &ModuleSpecifier) -> Option<String> {
+    self.jsx.clone()
+  }
+  fn default_jsx_import_source_types(&self, _referrer: &ModuleSpecifier) -> Option<String> {
+    self.jsx_types.clone()
+  }
+  fn jsx_import_source_module(&self, _referrer: &ModuleSpecifier) -> &str {
+    self.jsx_module
+  }
+  fn resolve(&self, specifier_text: &str, referrer_range: &Range, _kind: deno_graph::source::ResolutionKind) -> Result<ModuleSpecifier, deno_graph::source::ResolveError> {
+    match self.map.get(specifier_text) {
+      Some(Some(url)) => Ok(ModuleSpecifier::parse(url).unwrap()),
+      Some(None) => Err(deno_graph::source::ResolveError::Other(deno_error::JsErrorBox::generic("refused by the resolver"))),
+      None => Ok(deno_graph::resolve_import(specifier_text, &referrer_range.specifier)?),
+    }
+  }
+  fn resolve_types(&self, _specifier: &ModuleSpecifier) -> Result<Option<(ModuleSpecifier, Option<Range>)>, deno_graph::source::ResolveError> {
+    match &self.types {
+      None => Ok(None),
+      Some(Ok(url)) => Ok(Some((ModuleSpecifier::parse(url).unwrap(), None))),
+      Some(Err(())) => Err(deno_graph::source::ResolveError::Other(deno_error::JsErrorBox::generic("no types for this module"))),
+    }
+  }
+}
+
+fn parse_with(referrer: &str, kind: GraphKind, info: ModuleInfo, res: Option<&DeclResolver>) -> Option<JsModule> {
+  parse_with_headers(referrer, kind, info, None, res)
+}
+
+fn parse_with_headers(referrer: &str, kind: GraphKind, info: ModuleInfo, headers: Option<HashMap<String, String>>, res: Option<&DeclResolver>) -> Option<JsModule> {
   let provided = Provided(RefCell::new(Some(info)));
   let content: &[u8] = b"";
   let r = futures::executor::block_on(parse_module(ParseModuleOptions {
@@ -39,7 +77,7 @@ fn parse_with_headers(referrer: &str, kind: GraphKind, info: ModuleInfo, headers
     content: Arc::from(content),
     file_system: &NullFileSystem,
     jsr_url_provider: Default::default(),
-    maybe_resolver: None,
+    maybe_resolver: res.map(|r| r as &dyn deno_graph::source::Resolver),
     module_analyzer: &provided,
   }));
   match r {
@@ -194,6 +232,41 @@ fn gen_case_inner(seed: u64, k: u64, full: bool) -> Case {
       ty,
     ]));
   }
+  // a third of the whole declarations are parsed with a Resolver (its choices come from a stream of
+  // their own, so that the cases without one stay what they were)
+  let resolver: Option<DeclResolver> = if full {
+    let mut r2 = Rng::for_case(seed ^ 0xdec2, k);
+    if r2.chance(35) {
+      let mut map = HashMap::new();
+      for t in pool.iter().chain(TEXTS.iter().take(6)) {
+        match r2.below(8) {
+          0 => {
+            map.insert(t.to_string(), None);
+          }
+          1 => {
+            map.insert(t.to_string(), Some(format!("https://mapped.test/{}.ts", r2.below(3))));
+          }
+          _ => {}
+        }
+      }
+      Some(DeclResolver {
+        map,
+        jsx: if r2.chance(55) { Some((*r2.pick(&["https://esm.test/preact", "bare", "./local-jsx"])).to_string()) } else { None },
+        jsx_types: if r2.chance(40) { Some((*r2.pick(&["https://esm.test/preact-types", "./jsx-types"])).to_string()) } else { None },
+        jsx_module: if r2.chance(50) { "jsx-runtime" } else { "jsx-dev-runtime" },
+        types: match r2.below(4) {
+          0 => Some(Err(())),
+          1 | 2 => Some(Ok((*r2.pick(&["https://types.test/m.d.ts", "file:///p/m.d.ts"])).to_string())),
+          _ => None,
+        },
+      })
+    } else {
+      None
+    }
+  } else {
+    None
+  };
+  let jsx_module: &str = resolver.as_ref().map(|r| r.jsx_module).unwrap_or("jsx-runtime");
   // extras of a whole declaration
   let mut info_extras = info_of(vec![]);
   let mut header: Option<String> = None;
@@ -233,7 +306,7 @@ fn gen_case_inner(seed: u64, k: u64, full: bool) -> Case {
     if rng.chance(30) {
       header = Some(pick_text(&mut rng));
     }
-    let jsx_text = |s0: &SpecifierWithRange| format!("{}/jsx-runtime", s0.text);
+    let jsx_text = |s0: &SpecifierWithRange| format!("{}/{}", s0.text, jsx_module);
     let opt_swr = |ids: &mut Ids, s0: &Option<SpecifierWithRange>, jsxish: bool| -> Sx {
       Sx::opt(s0.as_ref().map(|s0| {
         let t = if jsxish { jsx_text(s0) } else { s0.text.clone() };
@@ -256,7 +329,30 @@ fn gen_case_inner(seed: u64, k: u64, full: bool) -> Case {
       opt_swr(&mut ids, &jsx_types, true),
       Sx::L(jsdoc_sx),
       Sx::opt(header.as_ref().map(|h| Sx::A(ids.id(&format!("text:{}", h))))),
+      // what the Resolver adds: default JSX source and types source (composed with the jsx module
+      // name), and its resolve_types answer for the module
+      Sx::opt(resolver.as_ref().and_then(|r| r.jsx.as_ref()).map(|t| Sx::A(ids.id(&format!("text:{}/{}", t, jsx_module))))),
+      Sx::opt(resolver.as_ref().and_then(|r| r.jsx_types.as_ref()).map(|t| Sx::A(ids.id(&format!("text:{}/{}", t, jsx_module))))),
+      match resolver.as_ref().and_then(|r| r.types.as_ref()) {
+        None => Sx::L(vec![]),
+        Some(Ok(url)) => Sx::atoms([1, ids.id(&format!("spec:{}", ModuleSpecifier::parse(url).unwrap()))]),
+        Some(Err(())) => {
+          // the error the builder is to record: built here from the public types
+          let own = ModuleSpecifier::parse(referrer).unwrap();
+          let e = ResolutionError::ResolverError {
+            error: Arc::new(deno_graph::source::ResolveError::Other(deno_error::JsErrorBox::generic("no types for this module"))),
+            specifier: own.to_string(),
+            range: Range { specifier: own, range: PositionRange::zeroed(), resolution_mode: None },
+          };
+          Sx::atoms([0, ids.id(&format!("err:{}", e))])
+        }
+      },
     ]);
+    if let Some(r) = &resolver {
+      for t in [&r.jsx, &r.jsx_types].into_iter().flatten() {
+        extra_texts.push(format!("{}/{}", t, jsx_module));
+      }
+    }
     info_extras.self_types_specifier = self_types;
     info_extras.ts_references = refs;
     info_extras.jsx_import_source = jsx;
@@ -293,13 +389,13 @@ fn gen_case_inner(seed: u64, k: u64, full: bool) -> Case {
       })])
     };
     let tid = ids.id(&format!("text:{}", t));
-    if let Some(m) = parse_with(&code_referrer, GraphKind::CodeOnly, one(StaticDependencyKind::Import)) {
+    if let Some(m) = parse_with(&code_referrer, GraphKind::CodeOnly, one(StaticDependencyKind::Import), resolver.as_ref()) {
       if let Some(d) = m.dependencies.get(t) {
         let r = rout_sx(&d.maybe_code, &mut ids);
         exec.push(Sx::L(vec![Sx::A(tid), r]));
       }
     }
-    if let Some(m) = parse_with(referrer, GraphKind::TypesOnly, one(StaticDependencyKind::ImportType)) {
+    if let Some(m) = parse_with(referrer, GraphKind::TypesOnly, one(StaticDependencyKind::ImportType), resolver.as_ref()) {
       if let Some(d) = m.dependencies.get(t) {
         let r = rout_sx(&d.maybe_type, &mut ids);
         types.push(Sx::L(vec![Sx::A(tid), r]));
@@ -310,7 +406,7 @@ fn gen_case_inner(seed: u64, k: u64, full: bool) -> Case {
   let mut whole = info_extras;
   whole.dependencies = descs;
   let headers = header.as_ref().map(|h| [("x-typescript-types".to_string(), h.clone())].into_iter().collect::<HashMap<_, _>>());
-  let real = parse_with_headers(referrer, kind, whole, headers);
+  let real = parse_with_headers(referrer, kind, whole, headers, resolver.as_ref());
   let mut obs = vec![];
   let mut direct = vec![];
   let mut n_multi = 0;
@@ -343,7 +439,7 @@ fn gen_case_inner(seed: u64, k: u64, full: bool) -> Case {
       Sx::L(vec![Sx::A(tid), res_sx(&td.dependency, &mut ids)])
     }));
     (
-      Sx::L(vec![Sx::A(31340), opts, Sx::L(vec![Sx::b(media.is_jsx()), Sx::A(zero)]), Sx::L(vec![Sx::L(exec), Sx::L(types)]), extras_sx, Sx::L(descr_sx)]),
+      Sx::L(vec![Sx::A(31340), opts, Sx::L(vec![Sx::b(media.is_jsx()), Sx::A(zero), Sx::A(ids.id(&format!("text:{}", ModuleSpecifier::parse(referrer).unwrap())))]), Sx::L(vec![Sx::L(exec), Sx::L(types)]), extras_sx, Sx::L(descr_sx)]),
       Sx::L(vec![Sx::L(vec![td, Sx::L(obs)])]),
     )
   } else {
@@ -352,10 +448,21 @@ fn gen_case_inner(seed: u64, k: u64, full: bool) -> Case {
   Case {
     input,
     obs: obs_sx,
-    meta: serde_json::json!({"stream": "declaration layer", "referrer": referrer, "graph_kind": format!("{:?}", kind), "descriptors": shown, "whole_declaration": full, "extras": shown_extras, "types_header": header,
+    meta: serde_json::json!({"stream": "declaration layer", "referrer": referrer, "graph_kind": format!("{:?}", kind), "descriptors": shown, "whole_declaration": full, "resolver": format!("{:?}", resolver), "extras": shown_extras, "types_header": header,
       "recorded": real.as_ref().map(|m| serde_json::to_value(&m.dependencies).unwrap())}),
     nontrivial: n_multi >= 1,
-    dist: vec![(format!("decl_descriptors_{}", n), 1), (format!("decl_entries_with_several_imports_{}", n_multi.min(3)), 1)],
+    dist: {
+      let mut d = vec![(format!("decl_descriptors_{}", n), 1), (format!("decl_entries_with_several_imports_{}", n_multi.min(3)), 1)];
+      if full {
+        d.push((format!("decl_resolver_{}", resolver.is_some()), 1));
+        if let Some(r) = &resolver {
+          d.push((format!("decl_resolve_types_{}", match &r.types { None => "none", Some(Ok(_)) => "some", Some(Err(())) => "error" }), 1));
+          d.push((format!("decl_default_jsx_source_{}_types_{}", r.jsx.is_some(), r.jsx_types.is_some()), 1));
+          d.push((format!("decl_resolver_types_dependency_{}", real.as_ref().and_then(|m| m.maybe_types_dependency.as_ref()).map(|td| td.specifier == ModuleSpecifier::parse(referrer).unwrap().to_string()).unwrap_or(false)), 1));
+        }
+      }
+      d
+    },
     direct_violations: direct,
   }
 }
